@@ -28,6 +28,9 @@ def run(ctx):
                 for s, xs in (('', []), ('a', ['1']), ('abc', ['0', '0'])):
                     jobs.append(('%s_w%d_%s%d' % (name, w, s, len(xs)), src, [s] + xs, w, 100, False, 100000))
                 continue
+            if name.startswith('lenbyte'):
+                jobs.append(('%s_w%d' % (name, w), src, [], w, 100, False, 400000))
+                continue
             conf.append(('c_%s_w%d' % (name, w), src, ['1', '2'], w, 100, False, 100000))
             if name.startswith('lit'):
                 # one operand is a literal: the second argument is not used, sweep the first
